@@ -1,5 +1,89 @@
-from .ctx import Undecided
+"""`for` loops over a symbolic number of iterations, verified with an inductive invariant supplied by
+the sidecar contract (LoopSpec): initialisation, preservation by one arbitrary iteration of the real
+loop body, and use after the loop."""
+
+from __future__ import annotations
+
+import ast
+
+import z3
+
+from .ctx import Undecided, cur
+from .values import T, lift
+
+
+class LoopSpec:
+    """variables: names of the loop-carried variables;
+    havoc(k) -> {name: arbitrary value};   inv(k, values) -> z3 Bool (k = number of completed iterations)"""
+
+    def __init__(self, variables, havoc, inv):
+        self.variables, self.havoc, self.inv = variables, havoc, inv
+
+
+def _assigned(stmts):
+    out = set()
+    for n in ast.walk(ast.Module(body=list(stmts), type_ignores=[])):
+        if isinstance(n, ast.Name) and isinstance(n.ctx, ast.Store):
+            out.add(n.id)
+        if isinstance(n, ast.Call) and isinstance(n.func, ast.Attribute) and n.func.attr in ("append", "extend", "update", "insert", "pop") and isinstance(n.func.value, ast.Name):
+            out.add(n.func.value.id)
+    return out
 
 
 def sym_for(interp, s, it, env, mod, fn):
-    raise Undecided("loop over a symbolic-length iterable without an invariant")
+    ctx = cur()
+    world = interp.world
+    qn = fn.pyvc_qualname if fn is not None else mod.name
+    ordinal = ctx.memo.setdefault(("loop-ordinal", qn), 0)
+    ctx.memo[("loop-ordinal", qn)] = ordinal + 1
+    spec = world.loop_specs.get((qn, ordinal))
+    if spec is None:
+        raise Undecided(f"loop #{ordinal} of {qn} runs a symbolic number of times and has no invariant")
+    if s.orelse:
+        raise Undecided("for-else")
+    if not isinstance(s.target, ast.Name):
+        raise Undecided("symbolic loop with a structured target")
+    n = lift(it.pyvc_len())
+    modified = (_assigned(s.body) - {s.target.id}) & set(_visible(env))
+    undeclared = modified - set(spec.variables)
+    if undeclared:
+        raise Undecided(f"loop of {qn} modifies {sorted(undeclared)}, which the invariant does not mention")
+    cur_vals = {v: env.lookup(v) for v in spec.variables}
+    tag = f"{qn}#loop{ordinal}"
+    # initialisation
+    ctx.prove(f"{tag}:invariant-holds-initially", spec.inv(z3.IntVal(0), cur_vals), "inv-init", scope="forall")
+    # preservation: an arbitrary iteration k
+    k = z3.Int(ctx.fresh("iter"))
+    ctx.assume(z3.And(k >= 0, k < n), tag="loop")
+    hv = spec.havoc(k)
+    for v, val in hv.items():
+        _set(env, v, val)
+    ctx.assume(spec.inv(k, hv), tag="loop-invariant")
+    env.vars[s.target.id] = T(lift(it.at(T(k))))
+    interp.exec_block(s.body, env, mod, fn)
+    after = {v: env.lookup(v) for v in spec.variables}
+    ctx.prove(f"{tag}:invariant-preserved-by-the-loop-body", spec.inv(k + 1, after), "inv-pres", scope="forall")
+    # after the loop: n iterations completed
+    hv2 = spec.havoc(n)
+    for v, val in hv2.items():
+        _set(env, v, val)
+    ctx.assume(spec.inv(n, hv2), tag="loop-invariant-exit")
+
+
+def _visible(env):
+    e = env
+    out = set()
+    while e is not None:
+        out |= set(e.vars)
+        e = e.parent
+    return out
+
+
+def _set(env, name, val):
+    e = env
+    while e is not None:
+        if name in e.vars:
+            e.vars[name] = val
+            return
+        e = e.parent
+    env.vars[name] = val
